@@ -60,6 +60,7 @@ EXC_OWNERS = {
     "reopen_older_release": ("C11", "C12"),
     "reopen_overwrite": ("C11",),
     "clear": ("C11",),
+    "abandon_query": ("C05", "C07", "C08", "C10", "C13", "C20", "C14"),
 }
 
 
@@ -210,6 +211,10 @@ def step(ctx, i, op):
     expected, note = O.exec_model(ctx.model, op, refs, observed)
     ctx.res.stats["ops"] += 1
     ctx.res.stats["op_" + op["op"]] += 1
+    if op["op"] == "abandon_query":
+        ctx.res.stats["query_requests_abandoned"] += 1
+    if observed and observed[0] == "abandoned":
+        ctx.res.stats["rule_installations_abandoned"] += 1
     if op.get("pending"):
         ctx.res.stats["clear_with_unfinished_request"] += 1
     if observed and observed[0] == "input_fault":
@@ -250,7 +255,7 @@ def run_sequential(case, sweep, prop=None, after_op=None, final=None, pre_op=Non
                 done = step(ctx, i, op)
                 if done and after_op is not None:
                     after_op(ctx, i, op)
-                if sweep is not None and (i == n - 1 or (every and (i + 1) % every == 0)):
+                if sweep is not None and (i == n - 1 or (every and (i + 1) % every == 0 and not op.get("hold_sweep"))):
                     sweep(ctx)
                     res.stats["sweeps"] += 1
             if final is not None:
